@@ -356,6 +356,19 @@ func (r *replayer) binary(pkg string) (string, error) {
 		return "", err
 	}
 	files[filepath.Join(r.repo, sub, "zz_verif_replay_test.go")] = testFile
+	// external test package linking every kmip-go package, so that the registries
+	// filled by their init functions are populated as they are in the executor
+	linkFile := filepath.Join(r.tmp, pkg+"_link_test.go")
+	var lb strings.Builder
+	fmt.Fprintf(&lb, "package %s_test\n\nimport (\n", pkg)
+	for _, p := range []string{"", "/ttlv", "/payloads", "/kmipclient", "/kmipserver"} {
+		fmt.Fprintf(&lb, "\t_ %q\n", modPath+p)
+	}
+	lb.WriteString(")\n")
+	if err := os.WriteFile(linkFile, []byte(lb.String()), 0644); err != nil {
+		return "", err
+	}
+	files[filepath.Join(r.repo, sub, "zz_verif_link_test.go")] = linkFile
 	ov, _ := json.Marshal(map[string]any{"Replace": files})
 	ovFile := filepath.Join(r.tmp, pkg+"_overlay.json")
 	os.WriteFile(ovFile, ov, 0644)
